@@ -554,8 +554,56 @@ func initReflect(i *interpreter) {
 		"Out":       newMethod(i.reflectPackage, rtypeType, "Out"),
 		"Size":      newMethod(i.reflectPackage, rtypeType, "Size"),
 		"String":    newMethod(i.reflectPackage, rtypeType, "String"),
+		"AssignableTo":  newMethod(i.reflectPackage, rtypeType, "AssignableTo"),
+		"ConvertibleTo": newMethod(i.reflectPackage, rtypeType, "ConvertibleTo"),
+		"Implements":    newMethod(i.reflectPackage, rtypeType, "Implements"),
+		"Name":          newMethod(i.reflectPackage, rtypeType, "Name"),
+		"PkgPath":       newMethod(i.reflectPackage, rtypeType, "PkgPath"),
+		"Comparable":    newMethod(i.reflectPackage, rtypeType, "Comparable"),
+		"Len":           newMethod(i.reflectPackage, rtypeType, "Len"),
+		"Key":           newMethod(i.reflectPackage, rtypeType, "Key"),
 	}
 	i.errorMethods = methodSet{
 		"Error": newMethod(i.reflectPackage, errorType, "Error"),
+	}
+}
+
+func init() {
+	externals["(reflect.rtype).AssignableTo"] = func(fr *frame, args []value) value {
+		return types.AssignableTo(args[0].(rtype).t, args[1].(iface).v.(rtype).t)
+	}
+	externals["(reflect.rtype).ConvertibleTo"] = func(fr *frame, args []value) value {
+		return types.ConvertibleTo(args[0].(rtype).t, args[1].(iface).v.(rtype).t)
+	}
+	externals["(reflect.rtype).Implements"] = func(fr *frame, args []value) value {
+		it, ok := args[1].(iface).v.(rtype).t.Underlying().(*types.Interface)
+		if !ok {
+			panic(targetPanic{iface{types.Typ[types.String], "reflect: non-interface type passed to Type.Implements"}})
+		}
+		return types.Implements(args[0].(rtype).t, it)
+	}
+	externals["(reflect.rtype).Name"] = func(fr *frame, args []value) value {
+		switch t := args[0].(rtype).t.(type) {
+		case *types.Named:
+			return t.Obj().Name()
+		case *types.Basic:
+			return t.Name()
+		}
+		return ""
+	}
+	externals["(reflect.rtype).PkgPath"] = func(fr *frame, args []value) value {
+		if t, ok := args[0].(rtype).t.(*types.Named); ok && t.Obj().Pkg() != nil {
+			return t.Obj().Pkg().Path()
+		}
+		return ""
+	}
+	externals["(reflect.rtype).Comparable"] = func(fr *frame, args []value) value {
+		return types.Comparable(args[0].(rtype).t)
+	}
+	externals["(reflect.rtype).Len"] = func(fr *frame, args []value) value {
+		return int(args[0].(rtype).t.Underlying().(*types.Array).Len())
+	}
+	externals["(reflect.rtype).Key"] = func(fr *frame, args []value) value {
+		return makeReflectType(rtype{args[0].(rtype).t.Underlying().(*types.Map).Key()})
 	}
 }
